@@ -1,8 +1,20 @@
 """Common body of the spec-class core checks (C01-C06): same pipeline, each keeps its own clauses."""
 from .. import common, specclass_run as R, tla
 
-ALL = ["scalars", "list_int", "set_str", "set_int", "dict_int", "nested", "nested_prep", "prepared", "prep_nonidem", "list_spec", "klist", "kset", "dict_spec"]
+ALL = ["scalars", "list_int", "set_str", "set_int", "dict_int", "nested", "nested_prep", "nested_prep_boom", "prepared", "prep_nonidem", "list_spec", "klist", "kset", "dict_spec",
+       "dnc_attr", "dnc_attr_decl", "dnc_class", "dflt_kinds", "dflt_kinds2", "inherit_spec", "inherit_plain", "inherit_plain_mut", "inherit_dnc", "bad_default", "eager"]
 ELEM = {"with_item", "update_item", "transform_item", "without_item"}
+
+
+def generated(tier, only=lambda g: True, quick_n=4):
+    """Scenarios of the fixed generated corpus (harness/gen_scenarios.json): all of them in the thorough tier, a subset rotating with
+    the seed in the quick tier (every member of the corpus holds on the unchanged tree whatever the seed)."""
+    from .. import scenarios as S
+    names = [n for n in S.GENERATED if only(S.SCENARIOS[n]["generated"])]
+    if tier == "thorough" or len(names) <= quick_n:
+        return names
+    k = (common.seed() * quick_n) % len(names)
+    return [names[(k + i) % len(names)] for i in range(quick_n)]
 
 
 def is_cow(a):
@@ -10,10 +22,12 @@ def is_cow(a):
 
 
 def run(prop, tier, prefixes, *, names=ALL, act_filter=None, quick_pairs=12000, thorough_pairs=None, need=("cow", "raised", "specified", "changed"),
-        rule="", assumptions=(), fault_pairs=(0, 0), fault_stride=(1, 1)):
+        rule="", assumptions=(), fault_pairs=(0, 0), fault_stride=(1, 1), histories=((1, 25), (16, 40)), gen_only=lambda g: True):
     rep = common.Report(prop, tier)
+    names = list(names) + [n for n in generated(tier, gen_only) if n not in names]
     result = R.collect(rep, names, tier, act_filter=act_filter, max_pairs=quick_pairs if tier != "thorough" else thorough_pairs, seed=common.seed(),
-                       fault_pairs=fault_pairs[tier == "thorough"], fault_stride=fault_stride[tier == "thorough"])
+                       fault_pairs=fault_pairs[tier == "thorough"], fault_stride=fault_stride[tier == "thorough"],
+                       histories=histories[tier == "thorough"])
     R.report_clauses(rep, result, prefixes)
     res = {"ante": result["ante"]}
     rep.add_events(result["n"], result["distinct"], [{k: e[k] for k in ("scn", "a", "pre", "recv_post", "res", "result", "same")} for e in result["samples"][:3]])
@@ -27,4 +41,5 @@ def run(prop, tier, prefixes, *, names=ALL, act_filter=None, quick_pairs=12000, 
                         "'unspecified' in the model (only the invariant clauses apply to them)"] + list(assumptions)
     return rep.finish(rule=rule or "every distinct reachable instance state of the TLC model of each scenario x the exported action universe (every helper, flag and argument "
                                    "combination of the scenario's pools; quick tier thins actions per state with a rotating stride); non-trivial = raised, changed the receiver "
-                                   "or returned a new object; distinct by (scenario, pre-state, action)")
+                                   "or returned a new object; distinct by (scenario, pre-state, action); plus seeded multi-step histories on persistent objects (a copy-on-write "
+                                   "result usually becomes the next receiver), every step judged by the same clauses")
